@@ -57,6 +57,9 @@ func (i *Iter) Next() bool {
 	if start == nil {
 		return i.Next()
 	}
+	// The address reported for an item is that item's: an item without a jid
+	// attribute has none (and must not inherit the previous item's).
+	i.current = jid.JID{}
 	for _, attr := range start.Attr {
 		if attr.Name.Local == "jid" {
 			i.current, i.err = jid.Parse(attr.Value)
